@@ -210,9 +210,41 @@ def opMzDoc (k : Pos.Consts) (inp : Json) : Except String Json := do
       ("q", Json.arr qres.toArray)]))
 
 /-- safe / unsafe mode on top of mz.doc: `ds` is the dataset of the document without its undefined properties -/
+def termDefOf (j : Json) : Except String Ctx.TermDef := do
+  let sub := match j.getObjVal? "sub" with
+    | .ok (.num n) => some n.mantissa.toNat
+    | _ => none
+  pure { name := ← jstr j "name", iri := ← jstr j "iri", datatype := ← jstr j "dt", sub := sub }
+
+def ctxSchemaOf (j : Json) : Except String Ctx.Schema := do
+  let ctxs ← (← (← j.getObjVal? "ctxs").getArr?).toList.mapM fun c => do
+    let id ← (← c.getObjVal? "id").getNat?
+    let terms ← match c.getObjVal? "terms" with
+      | .ok (.arr ts) => ts.toList.mapM termDefOf
+      | _ => pure []
+    pure (id, terms)
+  pure { ctxs := ctxs, top := ← (← j.getObjVal? "top").getNat? }
+
+partial def ctxNodeOf (j : Json) : Except String Ctx.Node := do
+  let types ← (← (← j.getObjVal? "types").getArr?).toList.mapM (·.getStr?)
+  let props ← (← (← j.getObjVal? "props").getArr?).toList.mapM fun pj => do
+    let name ← jstr pj "name"
+    let members ← (← (← pj.getObjVal? "members").getArr?).toList.mapM fun m => match m with
+      | .null => pure none
+      | x => do pure (some (← ctxNodeOf x))
+    pure (name, members)
+  pure (.mk types props)
+
 def opMzSafe (k : Pos.Consts) (inp : Json) : Except String Json := do
   let safe ← (← inp.getObjVal? "safe").getBool?
-  let und ← (← inp.getObjVal? "undefined").getNat?
+  let told ← (← inp.getObjVal? "undefined").getNat?
+  -- with the abstract document and its contexts at hand, the model works out itself what expansion leaves out
+  let und ← match inp.getObjVal? "schema", inp.getObjVal? "node" with
+    | .ok sj, .ok nj => do
+      let sch ← ctxSchemaOf sj
+      let doc ← ctxNodeOf nj
+      pure (Safe.undefinedOf sch 64 doc)
+    | _, _ => pure told
   let h ← hasherOf k (← inp.getObjVal? "h")
   let ds ← datasetOf (← inp.getObjVal? "ds")
   match Safe.merklize (canonTable inp) (cachedHasher h (dsStrings ds)) safe ⟨ds, und⟩ with
@@ -526,31 +558,6 @@ def opSchemaValidate (inp : Json) : Except String Json := do
 
 
 /-! ### contexts and paths -/
-def termDefOf (j : Json) : Except String Ctx.TermDef := do
-  let sub := match j.getObjVal? "sub" with
-    | .ok (.num n) => some n.mantissa.toNat
-    | _ => none
-  pure { name := ← jstr j "name", iri := ← jstr j "iri", datatype := ← jstr j "dt", sub := sub }
-
-def ctxSchemaOf (j : Json) : Except String Ctx.Schema := do
-  let ctxs ← (← (← j.getObjVal? "ctxs").getArr?).toList.mapM fun c => do
-    let id ← (← c.getObjVal? "id").getNat?
-    let terms ← match c.getObjVal? "terms" with
-      | .ok (.arr ts) => ts.toList.mapM termDefOf
-      | _ => pure []
-    pure (id, terms)
-  pure { ctxs := ctxs, top := ← (← j.getObjVal? "top").getNat? }
-
-partial def ctxNodeOf (j : Json) : Except String Ctx.Node := do
-  let types ← (← (← j.getObjVal? "types").getArr?).toList.mapM (·.getStr?)
-  let props ← (← (← j.getObjVal? "props").getArr?).toList.mapM fun pj => do
-    let name ← jstr pj "name"
-    let members ← (← (← pj.getObjVal? "members").getArr?).toList.mapM fun m => match m with
-      | .null => pure none
-      | x => do pure (some (← ctxNodeOf x))
-    pure (name, members)
-  pure (.mk types props)
-
 def partsJ' (r : Except String (List Rdf.PathPart)) : Json :=
   exceptJ (fun ps => Json.arr (ps.map partJ).toArray) r
 
